@@ -3,6 +3,7 @@
 #include <vector>
 #include <tuple>
 #include <amgcl/backend/builtin.hpp>
+#include <amgcl/value_type/static_matrix.hpp>
 #include <amgcl/adapter/crs_tuple.hpp>
 #include <amgcl/make_solver.hpp>
 #include <amgcl/amg.hpp>
@@ -24,6 +25,16 @@ void one() {
     Solver solve(A);
     (void)solve(rhs, x);        // matrix-vector products with the single-precision system matrix
     (void)solve(A, rhs, x);     // ... and with a double-precision one
+}
+void unit_views() {
+    // scalar vectors viewed as block vectors for a matrix of another precision (C07 / C13): the view keeps the vector's scalar type
+    std::vector<double> xd(8); std::vector<float> xf(8);
+    const std::vector<double> &cxd = xd;
+    auto a = amgcl::backend::reinterpret_as_rhs<amgcl::static_matrix<float, 2, 2> >(xd);
+    auto b = amgcl::backend::reinterpret_as_rhs<amgcl::static_matrix<float, 2, 2> >(cxd);
+    auto c = amgcl::backend::reinterpret_as_rhs<amgcl::static_matrix<double, 2, 2> >(xf);
+    auto d = amgcl::backend::reinterpret_as_rhs<amgcl::static_matrix<double, 4, 4> >(xd);
+    (void)a; (void)b; (void)c; (void)d;
 }
 void unit_mixed() {
     one<amgcl::solver::cg, amgcl::relaxation::spai0>();
